@@ -22,6 +22,17 @@ CLAIMS = {
         'note': COMMON_NOTE + ' preseal_melmint/apply_tip_909 are abstracted as events here.',
         'technique': 'bounded symbolic execution of rustc MIR + z3 (bit-vector) obligations, case split over delta',
     },
+    'C20': {
+        'text': 'Step lemmas on the MIR of CoinMapping::{insert_coin,remove_coin,coin_count,insert_coin_count} from an '
+                'arbitrary coin tree satisfying the count invariant: for a universally quantified covenant hash a, the '
+                'stored count changes by exactly the change in the number of coins locked by a; a stored count is never '
+                '0; only the coin key and that covenant\'s count key are written; nothing is counted while TIP-906 is '
+                'off; the proposer-reward call site passes the state\'s own TIP-906 flag. Induction over operations '
+                'gives the property for every history.',
+        'design_ref': 'DESIGN.md §8 C20',
+        'note': COMMON_NOTE + ' A-HASH, A-CODEC; novasmt::Tree modelled as a map (its Merkle internals are trusted).',
+        'technique': 'bounded symbolic execution of rustc MIR + z3 inductive-step obligations over a lazily sampled array model',
+    },
 }
 
 NOT_APPLICABLE = {}
